@@ -38,6 +38,9 @@ pub struct EmitCtx<'a> {
     pub only_frame_of_poll: bool,
     pub keep_alive: bool,
     pub expect_isn: Option<u32>,
+    /// the device limits bursts (DeviceCapabilities::max_burst_size): the stack clamps the window
+    /// it advertises, so the field may be SMALLER than the free space (never larger)
+    pub window_clamped_by_device: bool,
 }
 
 impl SenderMon {
@@ -136,7 +139,7 @@ impl SenderMon {
             // (f) SYN windows are unscaled: the field itself is the window, min(free, 65535)
             let free = rx_cap - c.recv_queue_after;
             let expect = free.min(65535) as u16;
-            if c.only_frame_of_poll && t.win != expect {
+            if c.only_frame_of_poll && t.win != expect && !(c.window_clamped_by_device && t.win < expect) {
                 v.push(Viol::new(
                     "C05/syn-window-not-unscaled",
                     format!("{} SYN window field {} but free receive space is {} (expected {})", who, t.win, free, expect),
@@ -167,7 +170,7 @@ impl SenderMon {
         if c.only_frame_of_poll && m.peer_syn_seen {
             let free = rx_cap - c.recv_queue_after;
             let expect = (free >> shift).min(65535) as u16;
-            if t.win != expect {
+            if t.win != expect && !(c.window_clamped_by_device && t.win < expect) {
                 v.push(Viol::new(
                     "C05/window-not-scaled-as-negotiated",
                     format!("{} window field {} but free space {} >> shift {} = {}", who, t.win, free, shift, expect),
